@@ -33,6 +33,22 @@ ATOMS = [
     ("ptroob", "c+", ["pointerOutOfBounds"], "void f{n}(void){{ char a[10]; const char *p = a + 11; (void)p; }}"),
     ("unsignedlt", "c+", ["unsignedLessThanZero"], "int f{n}(unsigned u){{ if (u < 0) return 1; return 0; }}"),
     ("branches", "c+", ["zerodiv"], "int gb{n}(int); int f{n}(int a,int b,int c,int d,int e,int h){{ int x=0; if(a){{gb{n}(1);}} if(b){{gb{n}(2);}} if(c){{gb{n}(3);}} if(d){{gb{n}(4);}} if(e){{gb{n}(5);}} if(h){{gb{n}(6);}} return 10/x; }}"),  # only with --check-level=exhaustive
+    # library-evaluated calls (std.cfg <returnValue> expressions, format strings, buffer sizes, containers)
+    ("libabs", "c+", ["arrayIndexOutOfBounds"], "int f{n}(void){{ int a[3]={{0}}; return a[abs(-5)]; }}"),
+    ("libtoupper", "c+", ["arrayIndexOutOfBounds"], "int f{n}(void){{ int a[3]={{0}}; return a[toupper('a')]; }}"),
+    ("libisdigit", "c+", ["zerodiv"], "int f{n}(void){{ return 10 / (isdigit('x')); }}"),
+    ("libstrlen", "c+", ["arrayIndexOutOfBounds"], "int f{n}(void){{ int a[2]={{0}}; return a[strlen(\"abc\")]; }}"),
+    ("libsqrt", "c+", ["arrayIndexOutOfBounds"], "int f{n}(void){{ int a[3]={{0}}; return a[(int)sqrt(16.0)]; }}"),
+    ("libfabs", "c+", ["arrayIndexOutOfBounds"], "int f{n}(void){{ int a[3]={{0}}; return a[(int)fabs(-4.0)]; }}"),
+    ("libisalpha", "c+", ["arrayIndexOutOfBounds"], "int f{n}(void){{ int a[2]={{0}}; return a[isalpha('a') ? 5 : 0]; }}"),
+    ("libprintf", "c+", ["invalidPrintfArgType_sint"], "void f{n}(void){{ printf(\"%d\\n\", \"str\"); }}"),
+    ("libmemset", "c+", ["bufferAccessOutOfBounds"], "void f{n}(void){{ char b[4]; memset(b, 0, 8); }}"),
+    ("cppstring", "+", ["containerOutOfBounds"], "void f{n}(){{ std::string s; s[2]='a'; }}"),
+    ("cppfront", "+", ["containerOutOfBounds"], "int f{n}(){{ std::vector<int> v; return v.front(); }}"),
+    ("cppsize", "+", ["arrayIndexOutOfBounds"], "int f{n}(){{ std::string s(\"abc\"); int a[2]={{0}}; return a[s.size()]; }}"),
+    ("tstr", "c+", ["arrayIndexOutOfBounds"], "void f{n}(void){{ char a[4]; a[sizeof(_T(\"abc\"))-1]=0; }}"),   # win32W / win64 only (wide _T)
+    ("win64", "c+", ["arrayIndexOutOfBounds"], "void f{n}(void){{ int a[(sizeof(void*)==8 && sizeof(long)==4)?2:10]; a[5]=0; }}"),  # win64 only
+    ("defval", "c+", ["zerodiv"], "#if defined(CFG_V) && CFG_V==2\nint f{n}(int y){{return y/0;}}\n#endif"),      # -DCFG_V=2 only
     ("cstyle", "+", ["cstyleCast"], "void f{n}(const char*s){{ char*t=(char*)s; (void)t; }}"),
     ("byvalue", "+", ["passedByValue"], "void f{n}(std::string s){{ (void)s.size(); }}"),
     ("postfix", "+", ["postfixOperator"], "void f{n}(std::list<int>&l){{ for(std::list<int>::iterator it=l.begin(); it!=l.end(); it++){{}} }}"),
@@ -89,7 +105,7 @@ def wp_material(rng, ctr, units, lang_of):
     if len(units) < 2:
         return decls, per
     kinds = ["null", "uninit", "index", "unused", "used", "nested", "odr", "nested3", "null_var", "index_sz", "ptrarith", "nested4",
-             "samefile_used", "multi_site", "cpp_members"]
+             "samefile_used", "multi_site", "cpp_members", "nested_shift", "nested_shift"]
     for _ in range(rng.randint(1, 4)):
         k = rng.choice(kinds)
         n = ctr.next()
@@ -119,6 +135,21 @@ def wp_material(rng, ctr, units, lang_of):
             per[a].append("void wpd%d(int*p){*p=0;}" % n)
             per[b].append("void wpm%d(int*p){wpd%d(p);}" % (n, n))
             per[c if k == "nested3" else a].append("void wpt%d(void){wpm%d(0);}" % (n, n))
+        elif k == "nested_shift":
+            # the forwarding function receives the pointer at one position and passes it on at another
+            pin, pout = rng.sample([1, 2, 3], 2)
+            par = lambda pos, nm: ", ".join(("int*%s" % nm if i == pos else "int a%d" % i) for i in range(1, 4))
+            arg = lambda pos, v: ", ".join((v if i == pos else str(i + 10)) for i in range(1, 4))
+            decls.append("void wpl%d(%s); void wpf%d(%s);" % (n, par(pout, "p"), n, par(pin, "p")))
+            per[a].append("void wpl%d(%s){*p=0;}" % (n, par(pout, "p")))
+            per[b].append("void wpf%d(%s){wpl%d(%s);}" % (n, par(pin, "p"), n, arg(pout, "p")))
+            bad = rng.chance(0.6)
+            # either a real null reaches the leaf, or a null constant sits at the position the pointer is forwarded *to*
+            if bad:
+                per[c].append("void wpg%d(void){wpf%d(%s);}" % (n, n, arg(pin, "0")))
+            else:
+                args = ", ".join(("&x" if i == pin else "0" if i == pout else str(i + 10)) for i in range(1, 4))
+                per[c].append("void wpg%d(void){int x=0; wpf%d(%s);}" % (n, n, args.replace("0", "(int*)0") if False else args))
         elif k == "null_var":
             # null passed through a variable / a conditional expression with XML-special characters, as 2nd or 3rd argument
             pos = rng.randint(1, 3)
@@ -281,19 +312,20 @@ BASE_ENABLE = ["--enable=style,warning,performance,portability", "--enable=all",
                "--enable=style,information", "--enable=warning,performance,portability,information", ""]
 
 OPTION_POOL = {
-    "--platform": ["--platform=unix32", "--platform=unix64", "--platform=win64", "--platform=win32A", ""],
+    "--platform": ["--platform=unix32", "--platform=unix64", "--platform=win64", "--platform=win32A", "--platform=win32W", "--platform=native", ""],
     "--std": ["--std=c89", "--std=c99", "--std=c11", ""],
     "--language": ["--language=c++", "--language=c", ""],
-    "--library": ["--library=posix", "--library=gnu", ""],
-    "-D": ["-DCFG_A", "-DCFG_B", "-DCFG_A -DCFG_B", ""],
+    "--library": ["--library=posix", "--library=gnu", "--library=windows", "--library=posix --library=gnu", ""],
+    "-D": ["-DCFG_A", "-DCFG_B", "-DCFG_A -DCFG_B", "-DCFG_V=1", "-DCFG_V=2", "-DCFG_A -DCFG_V=2", ""],
     "-U": ["-UCFG_A", "-UCFG_B", ""],
-    "-I": ["-Iinc", ""],
+    "-I": ["-Iinc", "-Iinc2", "-Iinc2 -Iinc", ""],
     "--inconclusive": ["--inconclusive", ""],
     "--max-configs": ["--max-configs=1", "--max-configs=2", "--force", ""],
     "--check-level": ["--check-level=exhaustive", "--check-level=normal", "--check-level=reduced", ""],
     "--enable": ["--enable=style", "--enable=warning", "--enable=all", "--enable=performance,portability",
                  "--enable=style,warning,performance,portability,information", ""],
-    "--suppress": ["--suppress=zerodiv", "--suppress=arrayIndexOutOfBounds", "--suppress=*:shared.h", "--suppress=unreadVariable", ""],
+    "--suppress": ["--suppress=zerodiv", "--suppress=arrayIndexOutOfBounds", "--suppress=*:shared.h", "--suppress=unreadVariable",
+                   "--suppress=zerodiv:u0.c:1", "--suppress=zerodiv:u0.c:2", "--suppress=zerodiv:u0.c:3", "--suppress=zerodiv:u1.c", "--suppress=zero*", ""],
     "--inline-suppr": ["--inline-suppr", ""],
 }
 
